@@ -44,8 +44,20 @@ def run(ctx: Ctx) -> None:
     seqs = list(uniq.values())
     if ctx.quick:
         # all sequences of length <= 2, and those of length 3 that end or start with a large/edge standard export
-        seqs = [s for s in seqs if len(s["hist"]) <= 2 or (any(x[1] != "small" for x in s["hist"]) and s["hist"][-1] != s["hist"][0])]
-        seqs = seqs[:90]
+        rng = __import__("random").Random(ctx.seed)
+        ones = [s for s in seqs if len(s["hist"]) == 1]
+        # pairs / triples: the neighbourhoods of the sidecar logic -- something spilled (top or body) followed or
+        # preceded by a self-contained export, and every spelling
+        def keyish(s):
+            h = s["hist"]
+            return any(x[1] != "small" for x in h) and h[-1] != h[0]
+        twos = [s for s in seqs if len(s["hist"]) == 2 and keyish(s)]
+        threes = [s for s in seqs if len(s["hist"]) == 3 and keyish(s)]
+        rng.shuffle(twos)
+        rng.shuffle(threes)
+        body2 = [s for s in twos if any(x[2] == "body" for x in s["hist"])][:14]
+        spell2 = [s for s in twos if any(x[3] != "canonical" for x in s["hist"]) and s not in body2][:14]
+        seqs = ones + body2 + spell2 + [s for s in twos if s not in body2 and s not in spell2][:30] + threes[:16]
     ctx.extra["sequences"] = len(seqs)
     n = 14
     chunks = [seqs[i::n] for i in range(n)]
